@@ -2,9 +2,14 @@ import Driver.IntDrv
 import Driver.CovDrv
 import Driver.ZwDrv
 import Driver.CliDrv
+import Driver.DwDrv
 /-! `zwmodel`: the executable side of the hand-written models.  One request per
     line on stdin, one or more answer lines on stdout. -/
 open Driver
+
+structure MState where
+  d : DState := {}
+  forest : ZwVerif.Dwarf.Forest := []
 
 def step (st : DState) (line : String) : DState × List String :=
   match line.trimAscii.toString.splitOn " " with
@@ -16,10 +21,18 @@ def step (st : DState) (line : String) : DState × List String :=
   | "cfg" :: rest => (handleCfg st rest, [])
   | _ => (st, ["bad-op"])
 
-partial def loop (h : IO.FS.Stream) (out : IO.FS.Stream) (st : DState) : IO Unit := do
+def stepM (st : MState) (line : String) : MState × List String :=
+  match line.trimAscii.toString.splitOn " " with
+  | "F" :: rest => ({ st with forest := parseForest rest [] }, [])
+  | ["FRAW"] => (st, rawRecords st.forest ++ ["."])
+  | ["FCOOKED"] => (st, cookedRecords st.forest ++ ["."])
+  | "FAT" :: names => (st, findAttrRecords st.forest (names.filterMap String.toNat?) ++ ["."])
+  | _ => let (d, outs) := step st.d line; ({ st with d := d }, outs)
+
+partial def loop (h : IO.FS.Stream) (out : IO.FS.Stream) (st : MState) : IO Unit := do
   let line ← h.getLine
   if line.isEmpty then return ()
-  let (st', outs) := step st line
+  let (st', outs) := stepM st line
   for o in outs do out.putStrLn o
   loop h out st'
 
